@@ -407,7 +407,7 @@ def evaluate(text: str, want_prune_info: bool = False) -> Outcome:
     try:
         printed = raw_print(tree)
     except Exception as e:
-        o.viol.append(('C02:printer-exception:' + type(e).__name__, 'RawPrinter raised %s: %s' % (type(e).__name__, str(e)[:200])))
+        o.viol.append((classify_printer_exception(text, e), 'RawPrinter raised %s: %s' % (type(e).__name__, str(e)[:200])))
         return o
     if printed != text:
         for k in classify_roundtrip(text, printed):
@@ -416,6 +416,22 @@ def evaluate(text: str, want_prune_info: bool = False) -> Outcome:
     if '(' in text or '[' in text:
         check_extents(text, tree, o)
     return o
+
+
+def classify_printer_exception(text: str, e: BaseException) -> str:
+    key = 'C02:printer-exception:' + type(e).__name__
+    if isinstance(e, RecursionError):
+        # a long operator / method / index chain is a left-deep tree although the text has no bracket nesting to speak of
+        depth = best = 0
+        for c in text:
+            if c in '([{':
+                depth += 1
+                best = max(best, depth)
+            elif c in ')]}':
+                depth -= 1
+        if best <= 3 and len(text) >= 600:
+            key += ':flat-chain-of-hundreds-of-operators'
+    return key
 
 
 def classify_position(text, ln, cn, p) -> str:
